@@ -4147,3 +4147,65 @@ func E4GlueAfterBox(c *core.Ctx, r *core.Report) {
 	r.Count("E4.glue-guards", n)
 	r.Floor("E4.glue-guards", 1)
 }
+
+// E4FitnessChargeOnClassesOnly: the fitness charge depends on the two fitness classes and on nothing else.
+func E4FitnessChargeOnClassesOnly(c *core.Ctx, r *core.Report) {
+	r.Rule("E4.fitness-charge-on-classes-only", "Linebreak charges DemeritsFitness when the fitness classes of two consecutive lines differ by more than one; the start node of the paragraph carries a class like every other node, so the first line is charged against it too. The condition under which DemeritsFitness is added therefore reads, of the node the line starts from, the Fitness field only (and the class of the line being formed): a test of the node's line number, position or parent exempts some lines from the charge, and a paragraph whose first line is very loose is broken differently from what the demerit formula gives")
+	p := c.MustPkg("text")
+	info := p.TypesInfo
+	n := 0
+	for _, fd := range core.AllFuncDecls(p) {
+		if fd.Body == nil {
+			continue
+		}
+		ast.Inspect(fd.Body, func(m ast.Node) bool {
+			is, ok := m.(*ast.IfStmt)
+			if !ok {
+				return true
+			}
+			adds := false
+			for _, st := range is.Body.List {
+				if as, ok := st.(*ast.AssignStmt); ok && as.Tok == token.ADD_ASSIGN && len(as.Rhs) == 1 {
+					if id, ok := core.Unparen(as.Rhs[0]).(*ast.Ident); ok {
+						if v, ok := info.Uses[id].(*types.Var); ok && v.Parent() == p.Types.Scope() && v.Name() == "DemeritsFitness" {
+							adds = true
+						}
+					}
+				}
+			}
+			if !adds {
+				return true
+			}
+			n++
+			key := fmt.Sprintf("text.%s|DemeritsFitness #%d depends on the fitness classes only", core.FuncName(fd), n)
+			fitness, other := 0, ""
+			ast.Inspect(is.Cond, func(q ast.Node) bool {
+				se, ok := q.(*ast.SelectorExpr)
+				if !ok {
+					return true
+				}
+				if sel := info.Selections[se]; sel != nil && sel.Kind() == types.FieldVal {
+					if isNamedDeref(sel.Recv(), "Breakpoint") {
+						if se.Sel.Name == "Fitness" {
+							fitness++
+						} else if other == "" {
+							other = c.Src(se)
+						}
+					}
+				}
+				return true
+			})
+			switch {
+			case other != "":
+				r.Fail("E4.fitness-charge-on-classes-only", key, c.Pos(is.Pos()), fmt.Sprintf("the condition `%s` also reads `%s`: lines for which that test fails are never charged for a jump in fitness class", c.Src(is.Cond), other))
+			case fitness == 0:
+				r.Fail("E4.fitness-charge-on-classes-only", key, c.Pos(is.Pos()), fmt.Sprintf("the condition `%s` does not read the Fitness of the node the line starts from", c.Src(is.Cond)))
+			default:
+				r.OK("E4.fitness-charge-on-classes-only", key, c.Pos(is.Pos()), c.Src(is.Cond))
+			}
+			return true
+		})
+	}
+	r.Count("E4.fitness-charge-sites", n)
+	r.Floor("E4.fitness-charge-sites", 1)
+}
